@@ -15,7 +15,7 @@
    "no local modification so far".  Cas/Cache.v: cachingDirectoryFetcher.
    Predicates: Cas/Spec.v ([p_step] is what Corr.v evaluates on the code). *)
 From VF Require Import Cas.Model Cas.Spec Cas.Cache Cas.ProofsLeaf Cas.ProofsInv Cas.ProofsStep
-  Cas.ProofsFaithful Cas.ProofsTrace Cas.CacheProofs Cas.ProofsTop.
+  Cas.ProofsFaithful Cas.ProofsTrace Cas.CacheProofs Cas.ProofsTop Cas.Hardlink Cas.HardlinkProofs.
 Open Scope string_scope.
 Open Scope nat_scope.
 Open Scope list_scope.
@@ -217,6 +217,69 @@ Theorem hardlink_key_separation : forall h x h' x', hl_key h x = hl_key h' x' ->
 Proof. exact hl_key_inj. Qed.
 Print Assumptions hardlink_key_separation.
 
+(* ---- hardlinkingFileFetcher (Cas/Hardlink.v) ------------------------------------------------
+
+   [htrace K K_eqb keyf c hinit ops]: the calls [ops] (GetFile with the outcome
+   of the download should one be needed; two concurrent GetFile calls for one
+   key; a cache file disappearing; a build directory entry removed) on one
+   fetcher with configuration [c] (blob sizes, maxFiles, maxSize), cache key
+   [keyf blob executable].  The hypotheses: the key is injective in (blob,
+   executable bit) -- for the code's key that is hardlink_key_separation plus
+   distinct blobs having distinct GetKey strings. *)
+
+(* A successful GetFile(d, exec) leaves a file with d's contents and exec's
+   mode at the requested name: all request sequences, all cache sizes, all
+   download failures, evictions, re-fetches and lost cache files. *)
+Theorem hardlink_returns_requested : forall K (K_eqb : K -> K -> bool) (keyf : N -> bool -> K),
+  (forall a b, K_eqb a b = true <-> a = b) ->
+  (forall d e d' e', keyf d e = keyf d' e' -> d = d' /\ e = e') ->
+  forall c ops d e name ok g ls,
+  In (HGet d e name ok, HOGet g ls) (htrace K K_eqb keyf c hinit ops) ->
+  g_st g = ST_OK -> g_dest g = Some (d, e).
+Proof. exact hardlink_returns_requested_l. Qed.
+Print Assumptions hardlink_returns_requested.
+
+(* Two concurrent calls for one key: each successful one has the requested
+   file, and the second does not download again when the first one's
+   download succeeded (the downloads map / wait channel). *)
+Theorem hardlink_pair_returns_requested : forall K (K_eqb : K -> K -> bool) (keyf : N -> bool -> K),
+  (forall a b, K_eqb a b = true <-> a = b) ->
+  (forall d e d' e', keyf d e = keyf d' e' -> d = d' /\ e = e') ->
+  forall c ops d e n1 n2 ok1 ok2 g1 g2 ls,
+  In (HPair d e n1 n2 ok1 ok2, HOPair g1 g2 ls) (htrace K K_eqb keyf c hinit ops) ->
+  (g_st g1 = ST_OK -> g_dest g1 = Some (d, e)) /\ (g_st g2 = ST_OK -> g_dest g2 = Some (d, e)) /\
+  (g_st g1 = ST_OK -> g_base g1 = 1 -> g_base g2 = 0).
+Proof. exact hardlink_pair_returns_requested_l. Qed.
+Print Assumptions hardlink_pair_returns_requested.
+
+(* The cache directory only ever holds, under each name, the file the name
+   stands for. *)
+Theorem hardlink_cache_never_poisoned : forall K (K_eqb : K -> K -> bool) (keyf : N -> bool -> K),
+  (forall a b, K_eqb a b = true <-> a = b) ->
+  (forall d e d' e', keyf d e = keyf d' e' -> d = d' /\ e = e') ->
+  forall c ops o x, In (o, x) (htrace K K_eqb keyf c hinit ops) ->
+  forall ls, (match x with HOGet _ l | HOPair _ _ l | HONone l => l end) = ls ->
+  forall k f, In (k, f) ls -> k = keyf (fst f) (snd f).
+Proof. exact cache_never_poisoned_l. Qed.
+Print Assumptions hardlink_cache_never_poisoned.
+
+(* The monitor Hardlink.check_hcase evaluates on the implementation (p_hstep,
+   with the key the harness parses back from the cache file names) holds of
+   every model trace. *)
+Theorem hardlink_monitor_holds_on_model : forall c ops,
+  htrace_ok pkey pkey_eqb pkeyf (htrace pkey pkey_eqb pkeyf c hinit ops) = true.
+Proof. exact htrace_ok_pkey_l. Qed.
+Print Assumptions hardlink_monitor_holds_on_model.
+
+(* ... and with the code's key: cache file name = hl_key (GetKey string) bit. *)
+Theorem hardlink_monitor_holds_code_key : forall (getkey : N -> string),
+  (forall d d', getkey d = getkey d' -> d = d') ->
+  forall c ops,
+  let keyf := fun d e => hl_key (getkey d) e in
+  htrace_ok string String.eqb keyf (htrace string String.eqb keyf c hinit ops) = true.
+Proof. exact htrace_ok_code_key_l. Qed.
+Print Assumptions hardlink_monitor_holds_code_key.
+
 (* ---- non-vacuity ---------------------------------------------------------------------- *)
 
 Definition ex_d1 : digest := ("00000000000000000000000000000001", 1%Z).
@@ -273,4 +336,30 @@ Example cache_nonvacuous :
                                  CGetDir ("j", "aa", 5%Z); CGetRoot ("i", "aa", 5%Z)])
   = [(CGetDir ("i", "aa", 5%Z), (Some 1, true)); (CGetRoot ("i", "aa", 5%Z), (Some 2, true));
      (CGetDir ("j", "aa", 5%Z), (Some 1, false)); (CGetRoot ("i", "aa", 5%Z), (Some 2, false))].
+Proof. vm_compute. reflexivity. Qed.
+
+(* hardlinkingFileFetcher, non-vacuity: maxFiles = 1; b.txt of blob 1 evicts
+   blob 0; the executable variant of blob 0 is a different cache file; the
+   re-fetch of blob 0 downloads again; a lost cache file is repaired. *)
+Example hardlink_nonvacuous :
+  map snd (htrace pkey pkey_eqb pkeyf (mkCfg [3; 4]%Z 1 100%Z) hinit
+    [HGet 0 false 0 true; HGet 0 false 1 true; HGet 0 true 2 true; HGet 1 false 3 true;
+     HGet 0 true 4 true; HLose 0 true; HGet 0 true 5 true]%N)
+  = [HOGet (mkGO 0 1 (Some (0, false))) [((0, false), (0, false))];
+     HOGet (mkGO 0 0 (Some (0, false))) [((0, false), (0, false))];
+     HOGet (mkGO 0 1 (Some (0, true))) [((0, true), (0, true))];
+     HOGet (mkGO 0 1 (Some (1, false))) [((1, false), (1, false))];
+     HOGet (mkGO 0 1 (Some (0, true))) [((0, true), (0, true))];
+     HONone [];
+     HOGet (mkGO 0 1 (Some (0, true))) [((0, true), (0, true))]]%N.
+Proof. vm_compute. reflexivity. Qed.
+
+(* The executable bit has to be part of the key: with a key that forgets it,
+   the model hands out the non-executable file for an executable request and
+   the monitor reports it. *)
+Example hardlink_needs_exec_in_key :
+  let keyf := fun (d : N) (_ : bool) => d in
+  map (fun ox => p_hstep N N.eqb keyf (fst ox) (snd ox))
+      (htrace N N.eqb keyf (mkCfg [3]%Z 4 100%Z) hinit [HGet 0 false 0 true; HGet 0 true 1 true]%N)
+  = [""; "C17:hl-wrong-file"].
 Proof. vm_compute. reflexivity. Qed.
